@@ -456,6 +456,16 @@ theorem group_scalar_after_define {c c' : Chem} {res : List String} {name : Stri
   obtain ⟨row', r1, r2, r3⟩ := set_group_scalar c' row name index (normalise comp) x h3 hn h5 hb
   exact ⟨row', r1, r2, r3 (h6 hs)⟩
 
+/-- non-vacuity of `group_scalar_after_define` with a ZERO fraction (inside the theorem: only the total
+must be non-zero): `Solvent = (Ethanol, Methanol)` with composition (1, 0); the scalar 8 gives Ethanol 8 and
+leaves Methanol at 0 although it held 4. -/
+example :
+    let c : Chem := { size := 3, index := [("Water", .pos 0), ("Ethanol", .pos 1), ("Methanol", .pos 2)], comps := [] }
+    ((c.defineGroup reservedAll "Solvent" ["Ethanol", "Methanol"] (some [1, 0]) false).toOption.bind fun c' =>
+      (setIx c' [1, 2, 4] (.grp [1, 2]) (.leaf (.str "Solvent")) (.scalar 8)).toOption) = some [1, 8, 0] ∧
+    sumRat [1, (0 : Rat)] ≠ 0 := by
+  decide +kernel
+
 /-- **set_frame across phases, `(..., IDs)`.**  A scalar, or 1-d data per chemical, written
 through the ellipsis phase is the single-phase write applied to every row: in every phase the
 entries outside the addressed positions are untouched, and no row is added or lost.  (Per-phase
